@@ -73,6 +73,12 @@ CHECKS = {
             "(not on a transposed Gram matrix) and recover the other factor as A V inv(Sigma) / H(A) U inv(Sigma); pinv structural rules equal the inverse of the payload, the "
             "least-squares operator has shape (columns, rows); Auto tables are exhaustive.",
             "Orthonormality, best rank-k and minimum-norm optimality are numerical and not decided; the CG pinv rule regularises on purpose and has no exact-algebra obligation.", "4/C16"),
+    "C07": ("scalar term rewriting of every slogdet rule against the determinant identities; dependence and sign-domain rules; decision table of the Auto rule",
+            "Decides the algebraic shape of the (sign, logabs) pair of every slogdet rule: product of square factors, Kronecker exponent N/n_i on sign and log-magnitude, block "
+            "multiplicities, diagonal / triangular (prod d/|d|, sum log|d|), c I_n -> ((c/|c|)^n, n log|c|), identity, Cholesky (s conj s, 2 ld), delegation to P L U; the sign must "
+            "depend on what the determinant's sign depends on (permutation parity); the log-magnitude must not be provably non-negative; logdet returns the second component and "
+            "forwards both algorithm arguments; Auto picks Cholesky/Lanczos only under PSD.",
+            "Accuracy of the Krylov / stochastic trace path and branch cuts are not decided.", "4/C07"),
 }
 
 NOT_APPLICABLE = {
